@@ -2177,6 +2177,7 @@ func runC17(c *Ctx) {
 			}
 		}
 	}
+	builderWrites := map[ssa.Instruction]bool{}
 	for _, f := range core.WithAnon(tk) {
 		for _, b := range f.Blocks {
 			for _, in := range b.Instrs {
@@ -2192,6 +2193,28 @@ func runC17(c *Ctx) {
 				case "Text":
 					n++
 					v := st.Val
+					// the text assembled in a strings.Builder: every write into that builder is a contribution
+					if bs, isCall := v.(*ssa.Call); isCall && core.StaticCalleeName(&bs.Call) == "(*strings.Builder).String" {
+						bld := cellOf(bs.Call.Args[0])
+						nW := 0
+						for _, f2 := range core.WithAnon(tk) {
+							for _, wc := range core.CallsIn(f2) {
+								wn := core.StaticCalleeName(wc.Common())
+								if !strings.HasPrefix(wn, "(*strings.Builder).Write") || cellOf(wc.Common().Args[0]) != bld {
+									continue
+								}
+								nW++
+								builderWrites[wc.(ssa.Instruction)] = true
+								okW, whyW := false, "unrecognised contribution "+wn
+								if wn == "(*strings.Builder).WriteString" {
+									okW, whyW = goodContribution(wc.Common().Args[1], wc.(ssa.Instruction))
+								}
+								c.R.Check(okW, "R17.1", "Tokenize: the text appended to a token's Text is the input text at the scan position", p.Pos(wc.Pos()), whyW, whyW)
+							}
+						}
+						c.R.Check(nW > 0, "R17.1", "Tokenize: the text assigned to a token's Text is assembled from the input", p.Pos(st.Pos()), "a strings.Builder that only receives input substrings", "nothing is written into the builder the text is taken from")
+						continue
+					}
 					// tok.Text += x  is BinOp ADD(load Text, x)
 					if bo, isBo := v.(*ssa.BinOp); isBo && bo.Op == token.ADD {
 						v = bo.Y
@@ -2206,7 +2229,37 @@ func runC17(c *Ctx) {
 					if k, isK := core.ConstInt(st.Val); isK && k == -1 {
 						continue // sentinel of newToken
 					}
-					c.R.Check(st.Val == idx, "R17.1", "Tokenize: a token's Offset is the scan position of its first rune", p.Pos(st.Pos()), "Offset = i", "Offset is "+core.AP(st.Val)+", not the position the rune was decoded at")
+					okOff := st.Val == idx
+					if !okOff {
+						// a variable that only ever holds the sentinel or the scan position (start := -1 ... start = i)
+						if ld, isLd := st.Val.(*ssa.UnOp); isLd && ld.Op == token.MUL {
+							if cell := cellOf(ld.X); cell != nil {
+								okOff = true
+								nSt := 0
+								for _, f2 := range core.WithAnon(tk) {
+									for _, b2 := range f2.Blocks {
+										for _, in2 := range b2.Instrs {
+											st2, isSt := in2.(*ssa.Store)
+											if !isSt || cellOf(st2.Addr) != cell {
+												continue
+											}
+											nSt++
+											if k, isK := core.ConstInt(st2.Val); isK && k == -1 {
+												continue
+											}
+											if st2.Val != idx {
+												okOff = false
+											}
+										}
+									}
+								}
+								if nSt == 0 {
+									okOff = false
+								}
+							}
+						}
+					}
+					c.R.Check(okOff, "R17.1", "Tokenize: a token's Offset is the scan position of its first rune", p.Pos(st.Pos()), "Offset = i", "Offset is "+core.AP(st.Val)+", not the position the rune was decoded at")
 				}
 			}
 		}
@@ -2238,6 +2291,9 @@ func runC17(c *Ctx) {
 						if fa, ok := st.Addr.(*ssa.FieldAddr); ok && core.FieldName(fa) == "Text" {
 							return true
 						}
+					}
+					if builderWrites[in] {
+						return true
 					}
 				}
 				return false
@@ -2478,6 +2534,20 @@ func isInputValue(v ssa.Value, prm *ssa.Parameter) bool {
 		}
 	}
 	return n == 1 && okSrc
+}
+
+// cellOf: the variable an address denotes: a local cell, or the cell a closure variable is bound to.
+func cellOf(addr ssa.Value) ssa.Value {
+	switch x := addr.(type) {
+	case *ssa.Alloc:
+		return x
+	case *ssa.FreeVar:
+		if c := boundCell(x); c != nil {
+			return c
+		}
+		return x
+	}
+	return nil
 }
 
 // boundCell: the value bound to a closure variable where the closure is created.
